@@ -378,3 +378,160 @@ func vConcI3(x int) int {
 	vAssume(false)
 	return 0
 }
+
+// List(T) fields for every primitive T: the text encoder hands the list to the list type of the
+// SAME element type, so every element is formatted with its own width and signedness
+const vTypeL = 0xabcdef0123456705
+
+func VH_C20_list_field_element_types() {
+	kind := vConcI12(int(vNondetU8()))
+	msg, seg, err := capnp.NewMessage(capnp.SingleSegment(nil))
+	vAssume(err == nil)
+	req, err := schema.NewRootCodeGeneratorRequest(seg)
+	vAssume(err == nil)
+	nodes, err := req.NewNodes(1)
+	vAssume(err == nil)
+	n := nodes.At(0)
+	n.SetId(vTypeL)
+	vAssume(n.SetDisplayName("t.capnp:L") == nil)
+	n.SetDisplayNamePrefixLength(8)
+	n.SetStructNode()
+	sn := n.StructNode()
+	sn.SetPointerCount(1)
+	fl, err := sn.NewFields(1)
+	vAssume(err == nil)
+	tl := vField(fl, 0, "l", 0)
+	tl.SetList()
+	et, err := tl.List().NewElementType()
+	vAssume(err == nil)
+	dv, err := fl.At(0).Slot().NewDefaultValue()
+	vAssume(err == nil)
+	vAssume(dv.SetList(capnp.Ptr{}) == nil)
+	_, vseg, err := capnp.NewMessage(capnp.SingleSegment(nil))
+	vAssume(err == nil)
+	st, err := capnp.NewStruct(vseg, capnp.ObjectSize{PointerCount: 1})
+	vAssume(err == nil)
+	x := vNondetU64()
+	var lp capnp.Ptr
+	tokKind, want := 0, uint64(0)
+	switch kind {
+	case 0:
+		et.SetInt8()
+		l, e := capnp.NewInt8List(vseg, 2)
+		vAssume(e == nil)
+		l.Set(0, int8(x))
+		lp, tokKind, want = l.ToPtr(), 1, uint64(int64(int8(x)))
+	case 1:
+		et.SetInt16()
+		l, e := capnp.NewInt16List(vseg, 2)
+		vAssume(e == nil)
+		l.Set(0, int16(x))
+		lp, tokKind, want = l.ToPtr(), 1, uint64(int64(int16(x)))
+	case 2:
+		et.SetInt32()
+		l, e := capnp.NewInt32List(vseg, 2)
+		vAssume(e == nil)
+		l.Set(0, int32(x))
+		lp, tokKind, want = l.ToPtr(), 1, uint64(int64(int32(x)))
+	case 3:
+		et.SetInt64()
+		l, e := capnp.NewInt64List(vseg, 2)
+		vAssume(e == nil)
+		l.Set(0, int64(x))
+		lp, tokKind, want = l.ToPtr(), 1, x
+	case 4:
+		et.SetUint8()
+		l, e := capnp.NewUInt8List(vseg, 2)
+		vAssume(e == nil)
+		l.Set(0, uint8(x))
+		lp, tokKind, want = l.ToPtr(), 2, uint64(uint8(x))
+	case 5:
+		et.SetUint16()
+		l, e := capnp.NewUInt16List(vseg, 2)
+		vAssume(e == nil)
+		l.Set(0, uint16(x))
+		lp, tokKind, want = l.ToPtr(), 2, uint64(uint16(x))
+	case 6:
+		et.SetUint32()
+		l, e := capnp.NewUInt32List(vseg, 2)
+		vAssume(e == nil)
+		l.Set(0, uint32(x))
+		lp, tokKind, want = l.ToPtr(), 2, uint64(uint32(x))
+	case 7:
+		et.SetUint64()
+		l, e := capnp.NewUInt64List(vseg, 2)
+		vAssume(e == nil)
+		l.Set(0, x)
+		lp, tokKind, want = l.ToPtr(), 2, x
+	case 8:
+		et.SetFloat32()
+		l, e := capnp.NewFloat32List(vseg, 2)
+		vAssume(e == nil)
+		f := math.Float32frombits(uint32(x))
+		l.Set(0, f)
+		lp, tokKind, want = l.ToPtr(), 3, math.Float64bits(float64(f))
+	case 9:
+		et.SetFloat64()
+		l, e := capnp.NewFloat64List(vseg, 2)
+		vAssume(e == nil)
+		l.Set(0, math.Float64frombits(x))
+		lp, tokKind, want = l.ToPtr(), 6, x
+	case 10:
+		et.SetBool()
+		l, e := capnp.NewBitList(vseg, 2)
+		vAssume(e == nil)
+		l.Set(0, x&1 == 1)
+		lp = l.ToPtr()
+	default:
+		et.SetVoid()
+		lp = capnp.NewVoidList(vseg, 2).ToPtr()
+	}
+	// values on which width and signedness show (a mix-up replays natively)
+	if kind < 8 && vNondetBool() {
+		vAssume(x&0x8080808080808080 == 0x8080808080808080)
+	}
+	data, err := msg.Marshal()
+	vAssume(err == nil)
+	reg := new(schemas.Registry)
+	vAssume(reg.Register(&schemas.Schema{Bytes: data, Nodes: []uint64{vTypeL}}) == nil)
+	vAssume(st.SetPtr(0, lp) == nil)
+	rm, err := capnp.Unmarshal(data)
+	vAssume(err == nil)
+	rreq, err := schema.ReadRootCodeGeneratorRequest(rm)
+	vAssume(err == nil)
+	rn, err := rreq.Nodes()
+	vAssume(err == nil)
+	fields, err := rn.At(0).StructNode().Fields()
+	vAssume(err == nil)
+	b := &vBuf{}
+	enc := NewEncoder(b)
+	enc.UseRegistry(reg)
+	m := vTokMark()
+	err = enc.marshalFieldValue(st, fields.At(0))
+	vReach("rendered")
+	vAssert(err == nil, "C20.listtypes.no-error")
+	out := string(b.b)
+	switch {
+	case kind == 10:
+		if x&1 == 1 {
+			vAssert(out == "[true, false]", "C20.listtypes.bool")
+		} else {
+			vAssert(out == "[false, false]", "C20.listtypes.bool")
+		}
+	case kind == 11:
+		vAssert(out == "[void, void]", "C20.listtypes.void")
+	default:
+		vAssert(vStrTokCount(out, m) == 2, "C20.listtypes.one-token-per-element")
+		vAssert(vStrTokIs(out, m, 0, tokKind, want), "C20.listtypes.element-formatted-with-its-own-type")
+	}
+}
+
+func vConcI12(x int) int {
+	for i := 0; i < 12; i++ {
+		if x == i {
+			return i
+		}
+	}
+	vAssume(false)
+	return 0
+}
